@@ -31,6 +31,7 @@ import (
 	"github.com/yorkie-team/yorkie/pkg/document/presence"
 	"github.com/yorkie-team/yorkie/pkg/document/time"
 	"github.com/yorkie-team/yorkie/pkg/key"
+	"github.com/yorkie-team/yorkie/server/rpc/auth"
 
 	"verifharness/prog"
 	"verifharness/stats"
@@ -290,11 +291,21 @@ type c13Case struct {
 	Flags int            `json:"flags"`
 }
 
-var c13Creds = []string{"none", "A-public", "A-secret", "A-token", "B-old-public", "B-old-secret", "garbage", "own-public", "own-secret", "own-token", "cluster-wrong", "cluster-right"}
+var c13Creds = []string{"none", "A-public", "A-secret", "A-token", "B-old-public", "B-old-secret", "garbage", "own-public", "own-secret", "own-token", "cluster-wrong", "cluster-right",
+	"A-token-expired", "A-token-wrongkey"}
 
-func (w *c13World) headers(cred string) map[string]string {
+func (w *c13World) headers(cred string, flags int) map[string]string {
 	h := map[string]string{}
 	switch cred {
+	case "A-token-expired":
+		// a token of the attacker's own (existing) user, signed with the
+		// server's key, whose lifetime ended a drawn while ago
+		ago := []gotime.Duration{2 * gotime.Second, gotime.Minute, gotime.Hour, 23 * gotime.Hour, 47 * gotime.Hour}[flags%5]
+		tok, _ := auth.NewTokenManager(world.SecretKey, -ago).Generate(w.A.user)
+		h["Authorization"] = "Bearer " + tok
+	case "A-token-wrongkey":
+		tok, _ := auth.NewTokenManager("not-the-servers-key", gotime.Hour).Generate(w.A.user)
+		h["Authorization"] = "Bearer " + tok
 	case "A-public":
 		h["x-api-key"] = w.A.proj.PublicKey
 	case "A-secret":
@@ -564,7 +575,7 @@ func runC13(c c13Case) (fail *prog.Failure, cls map[string]int, desc string) {
 		target = w.C // the rightful owner's calls go to the control project
 	}
 	msg, used := w.build(c, target)
-	hdr := w.headers(c.Cred)
+	hdr := w.headers(c.Cred, c.Flags)
 	desc = fmt.Sprintf("%s cred=%s ids=%v", p.Path(), c.Cred, used)
 	w.calls++
 	if w.calls%400 == 0 {
@@ -704,7 +715,8 @@ func TestC13(t *testing.T) {
 		case strings.Contains(pr.Service, "YorkieService"):
 			creds = []string{"A-public", "A-public", "A-public", "A-public", "A-public", "A-public", "none", "B-old-public", "garbage", "own-public", "own-public", "A-token"}
 		case strings.Contains(pr.Service, "AdminService"):
-			creds = []string{"A-secret", "A-secret", "A-secret", "A-token", "A-token", "A-token", "none", "A-public", "B-old-secret", "garbage", "own-secret", "own-token"}
+			creds = []string{"A-secret", "A-secret", "A-secret", "A-token", "A-token", "A-token", "none", "A-public", "B-old-secret", "garbage", "own-secret", "own-token",
+				"A-token-expired", "A-token-expired", "A-token-wrongkey"}
 		default:
 			creds = []string{"cluster-wrong", "cluster-wrong", "none", "A-secret", "cluster-right"}
 		}
